@@ -79,25 +79,25 @@ def draw_payload(d, paylen):
 # ---------------------------------------------------------------------------- npci_rt
 @meta(bounds="one instance per (destination kind, source kind, APDU / network message): expecting-reply "
              "flag symbolic, priority 0..3 symbolic, DNET / SNET symbolic over 1..65534, station address "
-             "length picked from `lens` with every octet symbolic, hop count 0..255 symbolic, message type "
-             "symbolic over 0..255 with vendor ID 0..65535 symbolic (mk=net) or absent (mk=apdu), payload "
+             "length picked from `dlens` / `slens` with every octet symbolic, hop count 0..255 symbolic, message "
+             "type symbolic over 0..255 with vendor ID 0..65535 symbolic (mk=net) or absent (mk=apdu), payload "
              "0..paylen symbolic octets",
-      outside="station address lengths not in `lens`; payloads longer than paylen (copied, not interpreted); "
+      outside="station address lengths not in `dlens` / `slens`; payloads longer than paylen (copied, not interpreted); "
               "local (non-routed) source/destination which never appear in an NPCI",
       stubs=[], assumes=[])
-def npci_rt(d, dk, sk, mk, lens, paylen):
+def npci_rt(d, dk, sk, mk, dlens, slens, paylen):
     er = d.bool('er')
     prio = d.int(0, 3, 'prio')
     dshape = sshape = None
     hops = None
     if dk == 'station':
-        dshape = ('station',) + draw_station(d, 'd', d.pick(lens, 'dlen'))
+        dshape = ('station',) + draw_station(d, 'd', d.pick(dlens, 'dlen'))
     elif dk == 'rbcast':
         dshape = ('rbcast', d.int(1, 65534, 'dnet'))
     elif dk == 'global':
         dshape = ('global',)
     if sk == 'station':
-        sshape = draw_station(d, 's', d.pick(lens, 'slen'))
+        sshape = draw_station(d, 's', d.pick(slens, 'slen'))
     if dshape is not None:
         hops = d.int(0, 255, 'hops')
     msg = vendor = None
@@ -222,7 +222,7 @@ def check_decode(d, data):
     if bool(y.pduExpectingReply) != bool(y2.pduExpectingReply):
         raise Violation("not-fixed-point", attr='pduExpectingReply', data=data)
     # the reserved control bits 6 and 4 carry no field
-    if (y.npduControl & 0xAF) != (y2.npduControl & 0xAF):
+    if R.defined_control_bits(y.npduControl) != R.defined_control_bits(y2.npduControl):
         raise Violation("not-fixed-point", attr='npduControl', data=data)
     if bytes(y.pduData) != bytes(y2.pduData):
         raise Violation("not-fixed-point", attr='pduData', data=data)
@@ -231,24 +231,43 @@ def check_decode(d, data):
         raise Violation("reencode-differs", data=data, got=o2)
 
 
-@meta(bounds="every octet string of length n (one instance per length; every octet symbolic)",
+@meta(bounds="every octet string of length n (one instance per length; every octet symbolic; the longer "
+             "lengths are split into 8 instances by the three top bits `hi` of the second octet, whose low "
+             "five bits stay symbolic, plus one instance `hi=-1` for every first octet other than 1)",
       outside="octet strings longer than the largest n (longer *valid* shapes are covered by npci_mutated)",
       stubs=[], assumes=[])
-def npci_decode_total(d, n):
-    data = octets(d, n, 'o')
+def npci_decode_total(d, n, hi=None):
+    if hi is None:
+        data = octets(d, n, 'o')
+    elif hi < 0:
+        v = d.int(0, 255, 'o0')
+        d.assume(v != 1)
+        data = bytes([v]) + octets(d, n - 1, 'r')
+    else:
+        # the library masks single bits of the control octet, which makes the engine
+        # enumerate its 256 values: share them out over 8 processes
+        data = bytes([1, hi * 32 + d.int(0, 31, 'o1lo')]) + octets(d, n - 2, 'r')
     check_decode(d, data)
     d.reach()
 
 
-@meta(bounds="a valid frame laid out by the clause 6.2 reference from symbolic fields (destination kind / "
+MUT_ER_PRIO = {'apdu': (True, 1), 'std': (False, 3), 'vendor': (False, 0)}
+
+
+@meta(bounds="a valid frame laid out by the clause 6.2 reference from symbolic fields (expecting-reply / "
+             "priority fixed per message kind: apdu (1, 1), std (0, 3), vendor (0, 0); destination kind / "
              "source kind / message kind per instance, station address length picked from `lens`, "
-             "2-octet payload), then the octet at a symbolic position replaced by a symbolic value",
+             "2-octet payload), then the octet at a symbolic position replaced by a symbolic value (ctl=any) or, "
+             "ctl=flip, by a symbolic value everywhere except the control octet, which gets each of its 8 "
+             "single-bit flips",
       outside="more than one replaced octet; insertions / deletions (truncation is covered by "
               "npci_decode_total on every short string)",
       stubs=[], assumes=[])
-def npci_mutated(d, dk, sk, mk, lens):
-    er = d.bool('er')
-    prio = d.int(0, 3, 'prio')
+def npci_mutated(d, dk, sk, mk, lens, ctl):
+    # expecting-reply and priority of the valid frame are concrete: position 1 replaces the
+    # whole control octet by a symbolic value anyway, and symbolic ones multiply every path
+    # by 8 (the library's single-bit masks make the engine enumerate the control octet)
+    er, prio = MUT_ER_PRIO[mk]
     dshape = sshape = hops = None
     if dk == 'station':
         dshape = ('station',) + draw_station(d, 'd', d.pick(lens, 'dlen'))
@@ -268,7 +287,13 @@ def npci_mutated(d, dk, sk, mk, lens):
         vendor = d.int(0, 0xFFFF, 'vendor')
     frame = R.npci_octets(er, prio, dshape, sshape, hops, msg, vendor) + octets(d, 2, 'p')
     pos = d.index(len(frame), 'pos')
-    v = d.int(0, 255, 'v')
+    if pos == 1 and ctl == 'flip':
+        # the control octet: its 8 single-bit flips (every one of the 256 values in front of
+        # symbolic octets is what npci_decode_total does; here it costs 256 sub-trees)
+        c0 = R.npci_control(er, prio, dshape is not None, sshape is not None, msg is not None)
+        v = c0 ^ (1 << d.index(8, 'bit'))
+    else:
+        v = d.int(0, 255, 'v')
     data = frame[:pos] + bytes([v]) + frame[pos + 1:]
     check_decode(d, data)
     d.reach()
@@ -483,10 +508,19 @@ def instances(tier):
     for dk in ('none', 'station', 'rbcast', 'global'):
         for sk in ('none', 'station'):
             for mk in ('apdu', 'net'):
-                out.append(Inst(npci_rt, dict(dk=dk, sk=sk, mk=mk, lens=lens, paylen=4),
-                                budget=90 if q else 400, label="%s,%s,%s" % (dk, sk, mk)))
-    for n in range(0, (5 if q else 8) + 1):
-        out.append(Inst(npci_decode_total, dict(n=n), budget=90 if q else 600))
+                # station x station is the big one: one process per destination length
+                split = [[n] for n in lens] if (dk == 'station' and sk == 'station') else [lens]
+                for dl in split:
+                    label = "%s,%s,%s" % (dk, sk, mk) + (",dlen=%d" % dl[0] if len(split) > 1 else "")
+                    out.append(Inst(npci_rt, dict(dk=dk, sk=sk, mk=mk, dlens=dl, slens=lens, paylen=4),
+                                    budget=90 if q else 400, label=label))
+    nmax = 5 if q else 8
+    for n in range(0, nmax + 1):
+        if n < 5:
+            out.append(Inst(npci_decode_total, dict(n=n), budget=90 if q else 300))
+        else:
+            for hi in range(-1, 8):
+                out.append(Inst(npci_decode_total, dict(n=n, hi=hi), budget=90 if q else 600))
     for dk in ('none', 'station', 'rbcast', 'global'):
         for sk in ('none', 'station'):
             for mk in ('apdu', 'std', 'vendor'):
